@@ -218,7 +218,9 @@ def make_queue_driver(maxlen):
 # ================================================================================================
 # (B) relay / boolean
 # ================================================================================================
-RETS = (None, {"a": 1}, {"a": 2, "b": 1}, True, False, 0)
+# the last value is a "blocking" result (as returned by the blocking config player / shots with blocking profiles); none of
+# the handlers here has a blocking facility, so it skips nobody - what a handler returns must still be honoured after it
+RETS = (None, {"a": 1}, {"a": 2, "b": 1}, True, False, 0, {"_min_priority": {"all": 0}})
 
 
 def _relay_bool_worker(arg):
@@ -302,7 +304,7 @@ def _relay_bool_worker(arg):
                             if res[0].get("ev_result") is False:
                                 bad("boolean-result", "no handler returned False but callback got ev_result=False")
                         for i, kw in log:
-                            if kw != {"x": 0}:
+                            if {k: v for k, v in kw.items() if k != "_min_priority"} != {"x": 0}:
                                 bad("boolean-args", "handler #%d received %r" % (i, kw))
                     ps = [prios[i] for i in called]
                     if any(ps[k] < ps[k + 1] for k in range(len(ps) - 1)):
@@ -449,7 +451,7 @@ def body(ctx):
     ctx.add(states=states, transitions=trans, traces_validated_against_impl=trans + total, searches=detail,
             exhaustive=True, evaluations=total, distinct_nontrivial=outc)
     ctx.assume("<=3 (quick) / <=4 (thorough) handlers per queue event, one nested queue event, one concurrent queue "
-               "event; relay/boolean lists up to 4/5 handlers over 6 return values",
+               "event; relay/boolean lists up to 4/5 handlers over 7 return values (incl. a blocking result)",
                "the BFS frontier empties: every order of clears/resolves/posts is covered for each scenario")
     return ("clears", "resolves", "second_queue_event", "nested_queue_events", "quiescent_states", "tied_priorities",
             "clear_while_other_wait_open", "boolean_stops", "relay_updates", "mode_stops")
